@@ -16,6 +16,13 @@ CLAIMS = {
          "z3 proves each clause of the selection rule on every feasible path or returns a history that is replayed on the unmodified code."),
    note=TRUSTED + "Problem.maxcv is replaced on the instance by an injected violation per evaluation; the end-to-end half (OptimizeResult vs evaluation log) is covered by the control-flow harness when present.",
    design="5/C03, 4/H-FILT"),
+ "C19": dict(
+   technique="symbolic execution of the real _set_default_constants/_set_default_options/minimize over z3 LRA with symbolic supplied values, enumerated key subsets; oracle = transcribed domain table",
+   text=("For every enumerated subset of supplied keys (each coupled pair in all 3 non-empty subsets, each single key, none, all 19; pairs of groups in thorough) and EVERY finite value of the supplied floats, "
+         "z3 proves: ValueError iff a documented domain/order restriction is violated; otherwise the completed settings satisfy every documented domain and relation, supplied values are kept, "
+         "unsupplied keys whose partner is unsupplied take the documented default; unknown names only warn and do not alter the run. Integer options range over an enumerated boundary lattice, n in 1..2 (quick) / 1..5."),
+   note=TRUSTED + "The specification table (harness/opt.py) is transcribed from the minimize docstring and the ValueError messages; NaN/inf supplied values excluded. End-to-end shapes stop the run at the first evaluation through the callback.",
+   design="5/C19, 4/H-OPT"),
 }
 NA_REASON = {
  "C04": "limit point of hundreds of floating-point SQP iterations through LAPACK; no bounded symbolic encoding decides convergence to the minimiser (DESIGN.md section 6)",
